@@ -263,10 +263,21 @@ struct Impl : Drv {
         haveLU = (info >= 0 && info <= n);
         if (do_solve && info == 0) {
             int_t i2 = 0;
+            bool cj = conj_around(o.trans);
+            if (cj) conj_B();
             SS(gstrs)(tr, &L, &U, perm_r.data(), perm_c.data(), &B, &Gstat, &i2);
+            if (cj) conj_B();
             if (i2) return -1000 + (long)i2;
         }
         return (long)info;
+    }
+    // A caller that holds A row-wise works with M = A**T as a column-compressed matrix: A X = B is M**T X = B, A**T X = B is M X = B, and
+    // A**H X = B is conj(M) X = B, i.e. M conj(X) = conj(B) - the right-hand side is conjugated before and the solution after the solve
+    bool conj_around(int trans) const { return ISCPX && stype_nr && trans == 2; }
+    void conj_B() {
+#if ISCPX
+        for (auto &v : bval) v.i = -v.i;
+#endif
     }
     void route_finalize() override {
         if (route_inited) { pxgstrf_finalize(&opts, &AC); route_inited = false; haveAC = false; }
@@ -277,7 +288,10 @@ struct Impl : Drv {
         trans_t tr = (trans_t)trans;
         if (stype_nr) tr = (tr == NOTRANS) ? TRANS : NOTRANS;
         int_t info = 0;
+        bool cj = conj_around(trans);
+        if (cj) conj_B();
         SS(gstrs)(tr, &L, &U, perm_r.data(), perm_c.data(), &B, &Gstat, &info);
+        if (cj) conj_B();
         return (long)info;
     }
     void destroy_LU(bool user_work) override {
